@@ -8,22 +8,27 @@ int main(int argc, char** argv) {
   DRV_INIT(argc, argv);
   const char* fn = arg_s("fn", "baa");
   static const uint64_t q[4] = {Q1, Q2, Q3, Q4};
-  static const uint64_t ells[] = {10000, 9999, 8192, 8191, 4096, 1};
-  int isb = !strcmp(fn, "bbb");
+  static const uint64_t ells[] = {10000, 9999, 8193, 8192, 8191, 4096, 7, 3, 2, 1};
+  int isb = !strncmp(fn, "bbb", 3);
+  int avx = strstr(fn, "avx2") != 0;   // the AVX2 twin of the same product
   void* pre = isb ? (void*)q120_new_vec_mat1col_product_bbb_precomp() : (void*)q120_new_vec_mat1col_product_baa_precomp();
-  for (int pat = 0; pat < 3 && !g_found; ++pat)
+  for (int pat = 0; pat < 4 && !g_found; ++pat)
     for (unsigned e = 0; e < sizeof(ells) / sizeof(*ells) && !g_found; ++e) {
       uint64_t ell = ells[e];
       uint64_t* x = xalloc(ell * 32); uint64_t* y = xalloc(ell * 32); uint64_t res[4];
       uint64_t top = isb ? ~(uint64_t)0 : 0xffffffffull;
       for (uint64_t i = 0; i < 4 * ell; ++i) { x[i] = pat == 0 ? top : pat == 1 ? top - (rnd() % 3) : (rnd() & top); y[i] = pat == 2 ? (rnd() & top) : top; }
-      if (isb) q120_vec_mat1col_product_bbb_ref(pre, ell, (q120b*)res, (const q120b*)x, (const q120b*)y);
+      // pattern 3: unbalanced high halves (full lanes against lanes with an empty high half, y = 2^32 for layout b)
+      if (pat == 3) for (uint64_t i = 0; i < 4 * ell; ++i) { x[i] = ((i / 4) % 2 == 0) ? top : (top >> (isb ? 32 : 16)); y[i] = isb ? (((uint64_t)1) << 32) : top; }
+      if (isb && avx) q120_vec_mat1col_product_bbb_avx2(pre, ell, (q120b*)res, (const q120b*)x, (const q120b*)y);
+      else if (isb) q120_vec_mat1col_product_bbb_ref(pre, ell, (q120b*)res, (const q120b*)x, (const q120b*)y);
+      else if (avx) q120_vec_mat1col_product_baa_avx2(pre, ell, (q120b*)res, (const q120a*)x, (const q120a*)y);
       else q120_vec_mat1col_product_baa_ref(pre, ell, (q120b*)res, (const q120a*)x, (const q120a*)y);
       for (int k = 0; k < 4 && !g_found; ++k) {
         u128 acc = 0;
         for (uint64_t i = 0; i < ell; ++i) acc = (acc + (u128)(x[4 * i + k] % q[k]) * (y[4 * i + k] % q[k])) % q[k];
         if (res[k] % q[k] != (uint64_t)acc)
-          REPRODUCED("q120_vec_mat1col_product_%s_ref ell=%lu operand pattern %d: lane %d is %lu mod q = %lu, the sum of products is %lu mod q", fn, (unsigned long)ell, pat, k, (unsigned long)res[k], (unsigned long)(res[k] % q[k]), (unsigned long)acc);
+          REPRODUCED("q120_vec_mat1col_product_%s ell=%lu operand pattern %d: lane %d is %lu mod q = %lu, the sum of products is %lu mod q", fn, (unsigned long)ell, pat, k, (unsigned long)res[k], (unsigned long)(res[k] % q[k]), (unsigned long)acc);
       }
       free(x); free(y);
     }
